@@ -161,7 +161,7 @@ class CdefGen:
 
     def item(self):
         r = self.rng
-        k = r.randrange(17)
+        k = r.randrange(19)
         if k == 0:
             n = self.fresh("T")
             self.add(["typedef"] + self.vtype() + self.declarator(n) + [";"])
@@ -272,6 +272,19 @@ class CdefGen:
                 self.add(["typedef", "unsigned", "char", n, ";"])
             else:
                 self.add(["extern", "FILE", "*", self.fresh("fp"), ";"])
+        elif k in (16, 17):   # uses of common type names the cdef does not define (pre-declared by Parser._parse from the
+            #                   words of the comment-free text)
+            a, b, c = (r.choice(COMMON_NAMES) for _ in range(3))
+            kk = r.randrange(4)
+            if kk == 0:
+                self.add([a, self.fresh("fn"), "(", b, ",", c, "*", self.fresh("p"), ")", ";"])
+            elif kk == 1:       # an unnamed function-typed parameter: only a parameter NAME when `a` is not a type name
+                self.add(["int", self.fresh("fn"), "(", "int", "(", a, ")", ")", ";"])
+            elif kk == 2:
+                self.add(["typedef", "struct", "{", a, self.fresh("f"), ";", b, self.fresh("f"), "[", "2", "]", ";", "}",
+                          self.fresh("H"), ";"])
+            else:
+                self.add(["extern", a, "*", self.fresh("v"), ";"])
         else:
             self.add(["struct", self.fresh("o"), ";"])
 
@@ -290,7 +303,47 @@ def gen_cdef(rng):
 # ----------------------------------------------------------------------------- insertions
 
 CPIECES = ["a", "bc", " ", " ", "*", "/", "#", "\"", "'", ".", ";", "{", "}", "[", "]", "=", ",", "(", ")",
-           "define", "extern \"Python\"", "...", "//", "/*", "#line 3", "int", "__stdcall", "\\x", "#define Q 1"]
+           "define", "extern \"Python\"", "...", "//", "/*", "#line 3", "int", "__stdcall", "\\x", "#define Q 1",
+           # C-looking words: comments in real headers are commented-out declarations and prose about types
+           "typedef", "typedef ", " typedef ", "struct", "enum", "union", "extern", "#define", "WINAPI", "__cdecl",
+           "unsigned", "char", "long", ";", ";", ",", ",", " ;", " ,"]
+
+# names of cffi's common types (cffi/commontypes.py): a cdef may use them without defining them; cparser._common_type_names
+# decides from the WORDS of the comment-free text which of them are pre-declared to pycparser
+COMMON_NAMES = ["size_t", "ssize_t", "uint8_t", "int32_t", "uint64_t", "uint16_t", "intptr_t", "wchar_t", "bool", "FILE",
+                "ptrdiff_t", "int8_t", "uintptr_t", "char16_t"]
+
+
+def ctext(rng):
+    """text of a comment that looks like C about a common type name: a commented-out typedef, prose with the word
+    'typedef' before a type name that is followed by ';' or ',' (what _common_type_names' state machine reacts to), a
+    struct/enum/extern "Python"/#define fragment.  The names are preferably those the cdef under test uses."""
+    names = getattr(rng, "c31_names", None) or COMMON_NAMES
+    n, m = rng.choice(names), rng.choice(names + COMMON_NAMES)
+    k = rng.randrange(12)
+    if k == 0:
+        return " typedef %s %s; " % (rng.choice(["unsigned char", "unsigned long", "int", "struct _x", "..."]), n)
+    if k == 1:
+        return " typedef'd in <std%s.h>, like %s, %s " % (rng.choice(["int", "def", "io"]), n, m)
+    if k == 2:
+        return " see the typedef of %s; " % n
+    if k == 3:
+        return "typedef struct { %s a; } %s, *%s;" % (m, n, m)
+    if k == 4:
+        return " typedef int (*%s)(%s, %s); " % (rng.choice(["cb", n]), n, m)
+    if k == 5:
+        return " typedef %s" % n                      # an open typedef: the next ';' of the CDEF would close it
+    if k == 6:
+        return " %s, %s; typedef " % (n, m)
+    if k == 7:
+        return " extern \"Python\" %s f(%s); " % (n, m)
+    if k == 8:
+        return " #define %s %s " % (n, m)
+    if k == 9:
+        return " struct %s { %s x; }; enum { %s, }; " % (n, m, n)
+    if k == 10:
+        return " %s __stdcall WINAPI f(%s ...); [...] = ..., } " % (n, m)
+    return "typedef %s;%s,%s;" % (n, m, n)
 
 
 _DIRLIKE = re.compile(r"^[ \t]*#[ \t]*(?:line|\d+)\b.*$", re.MULTILINE)
@@ -309,11 +362,18 @@ def cbody(rng, nl=False, line=False):
             return s
 
 
+def cpieces(rng, n):
+    out = []
+    for _ in range(n):
+        out.append(ctext(rng) if rng.random() < 0.22 else rng.choice(CPIECES))
+    return "".join(out)
+
+
 def cbody1(rng, nl=False, line=False):
-    s = "".join(rng.choice(CPIECES) for _ in range(rng.randrange(0, 6)))
+    s = cpieces(rng, rng.randrange(0, 6))
     if nl:
-        parts = [s, rng.choice(["\n", "\n\n", "\n# 5 \"q.h\"\n", "\n#define Z 3\n", "\n * "]),
-                 "".join(rng.choice(CPIECES) for _ in range(rng.randrange(0, 4)))]
+        parts = [s, rng.choice(["\n", "\n\n", "\n# 5 \"q.h\"\n", "\n#define Z 3\n", "\n * ", "\n typedef "]),
+                 cpieces(rng, rng.randrange(0, 4))]
         s = "".join(parts)
     if line:
         s = s.replace("\n", " ").rstrip("\\")
@@ -571,6 +631,8 @@ def gen_meta_cases(ctx):
     for i in range(n_main + n_known):
         items, partial = gen_cdef(rng)
         special = rng.choice(SPECIALS) if i >= n_main else None
+        # the comments of this case talk about the common type names the cdef uses (see ctext)
+        rng.c31_names = sorted(set(t for it in items for t in it["toks"] if t in COMMON_NAMES)) or None
         bf, bs = base_fills(items)
         for _ in range(2 if special is None else 1):
             vf, vs, tags, applied = make_variant(rng, items, special)
@@ -592,6 +654,18 @@ def generate(ctx):
         dict(kind="meta", base="int a [ 6 / 2 ] ;\n", variant="int a[6 / /* 3 */2];\n", partial=False, tags=["blk"],
              special=None),
     ]
+    # comments whose text looks like C (commented-out declarations, prose with 'typedef' before a common type name)
+    hdr = ("typedef struct { uint8_t tag ; uint16_t len ; } hdr_t ;\n#define LIMIT 42\nenum color { RED , GREEN = 7 , BLUE } ;\n"
+           "size_t hdr_size ( hdr_t * h , int n ) ;\n")
+    for var in ("// typedef unsigned char uint8_t;\n" + hdr,
+                hdr.replace("tag ; ", "tag ; /* typedef'd in <stdint.h>, like\n uint16_t, uint32_t */ "),
+                hdr.replace("size_t hdr_size", "/* on this platform: typedef unsigned long size_t; */\nsize_t hdr_size"),
+                hdr.replace("size_t hdr_size", "size_t /* typedef */ hdr_size"),
+                hdr.replace("uint8_t tag", "uint8_t /* typedef x */ tag")):
+        corpus.append(dict(kind="meta", base=hdr, variant=var, partial=False, tags=["blk", "ctext"], special=None))
+    corpus.append(dict(kind="meta", base="int apply ( int ( size_t ) ) ;\n",
+                       variant="/* see <stddef.h> for the typedef of size_t; */\nint apply ( int ( size_t ) ) ;\n",
+                       partial=False, tags=["blk", "ctext"], special=None))
     # \r \f \v on a directive line, every position (all handled by the tree as of ec3bae5)
     for w_ in ("\f", "\v"):
         for var in ("int x ;\n%s# 12 \"foo.h\"\nint y ;\n", "int x ;\n#%s12 \"foo.h\"\nint y ;\n", "int x ;\n# 12%s\"foo.h\"\nint y ;\n",
